@@ -877,10 +877,10 @@ def decode_limit_covers_file(ctx):
                 ctx.check(direct and len(o) == 1, f"{short(ctx.r.outer_fn(b).name)}/limit", [site(b, bb)],
                           "the decode limit is not exactly the file's own length (a cap below the size of a legitimately written state makes it 'corrupted': it is dropped and the target rebuilt on every run)")
     if n == 0:
-        sl = [(b, bb) for b in f.user_bodies() for bb, t in b.calls() if re.match(r"^bincode::deserialize$", t["callee"]["base"])]
-        ctx.need(sl, "a bincode decode with a limit (or a slice decode)")
+        sl = [(b, bb) for b in f.user_bodies() for bb, t in b.calls() if re.match(r"^bincode::deserialize", t["callee"]["base"])]
+        ctx.need(sl, "a bincode decode of the state file")
         for (b, bb) in sl:
-            ctx.ok(f"{short(ctx.r.outer_fn(b).name)}/slice", [site(b, bb)], "slice decode: bounded by the slice")
+            ctx.ok(f"{short(ctx.r.outer_fn(b).name)}/no-cap", [site(b, bb)], "no size cap below the file's length (an absent limit is C05.BOUNDED-DECODE's business; it cannot make a legitimate state undecodable)")
 
 
 _PLAIN_ADAPTORS = re.compile(r"(::iter$|::into_iter$|::cloned$|::copied$|::map(::<.*>)?$|::iter_mut$|Deref>::deref$|::as_slice$|::collect(::<.*>)?$|IntoIterator>::into_iter$|::values$|::keys$|::enumerate$|::by_ref$|from_iter|::buffer_unordered|stream::iter|::to_vec$|::as_ref$|Clone>::clone$)")
